@@ -17,7 +17,8 @@ Limits kept on purpose (see incoming/suid/NOTES.md):
 * in the programs with loads and stores every value that can reach a value prompt is a multiple of
   0x100 in [0, 0x8000) \\ {0x1000}, and every access of one program has the same width at offsets that are
   multiples of it: loads never overlap stored data partially (F03, `emulator.memValue`, is another
-  slice's open finding) and no address is near 2^64 (F37, known).
+  slice's open finding); addresses near 2^64 come from the dedicated stream `g_ui_top` only (F45, repaired: the
+  step fails with an error message).
 """
 import struct
 
@@ -477,6 +478,46 @@ WITNESSES = [
     # emulate on a header and on the blank line
     lambda p: ui_line(p, 12, ["e", "", "g %d" % (p.nlines - 1), "e", "", "q", ""]),
 ]
+
+
+TOP_VALUES = ["0xffffffffffffffff", "0xffffffffffffffff", "18446744073709551615", "0xfffffffffffffffd", "0xfffffffffffffffc",
+              "0xfffffffffffffff9", "0xfffffffffffffff8", "0xfffffffffffffff7", "0xfffffffffffffff0", "0xffffffffffffff00",
+              "0XFFFFFFFFFFFFFFFE", "0o1777777777777777777777", "-1", "-4", "-8", "-9"]
+
+# (program, listing line, registers asked in order, index of the address register in that list)
+TOP_SPOTS = [("mem8", 6, [6], 0), ("mem8", 2, [1, 2], 1), ("mem8", 3, [2], 0),
+             ("mem4", 4, [2], 0), ("mem4", 5, [3, 2], 1), ("mem4", 6, [2], 0)]
+
+
+def g_ui_top(r):
+    """F45 from the console: emulate at a load / store whose address register is unknown, step, answer the prompt for
+    that register with a value at the top of the address space (the access ends at, just below or beyond 2^64); the
+    step fails with an error message (acknowledged), the session goes on: step again (fails again, now without a
+    prompt), regmod the register to a harmless value, step (succeeds), memory view, quit"""
+    name, ln, asked, ai = r.choice(TOP_SPOTS)
+    prog = next(p for p in PROGRAMS if p.name == name)
+    lines = ["g %d" % ln, r.choice(["e", "emulate"]), r.choice(["s", "step", "f"])]
+    for i, _ in enumerate(asked):
+        while r.random() < 0.1:
+            lines += [value_bad(r), ""]
+        lines.append(r.choice(TOP_VALUES) if i == ai else value_ok(r, prog))
+    lines.append("")                      # the error message of the failed step (or a memory prompt: empty = rejected)
+    for _ in range(r.randint(0, 4)):
+        k = r.random()
+        if k < 0.35:
+            lines += [r.choice(["s", "step"]), ""]
+        elif k < 0.6:
+            lines += ["regmod x%d" % asked[ai], r.choice([value_ok(r, prog), r.choice(TOP_VALUES)])]
+        elif k < 0.75:
+            lines += ["m memory", r.choice(["d 1", "a 0xfffffffffffffff0", "a 8192", "u 1"]), "", "q", ""]
+        elif k < 0.85:
+            lines += ["ms", ""]
+        else:
+            lines += [value_ok(r, prog)]
+    if r.random() < 0.7:
+        lines += ["q", "", "q", ""]
+    height = r.choice([12, 12, 16, 9, 30])
+    return ui_line(prog, height, lines + tail(r, prog))
 
 
 def g_ui_witness(r):
